@@ -12,9 +12,12 @@ import (
 	"os"
 	"os/exec"
 	"path/filepath"
+	"regexp"
 	"sort"
 	"strings"
 	"sync"
+
+	"golang.org/x/tools/go/ssa"
 )
 
 type seededMeta struct {
@@ -165,6 +168,13 @@ func thoroughExtras(w *World, prop string, spec PropertySpec) ([]Obligation, []s
 			obl = append(obl, Obligation{Rule: "COVER", Func: "-", Construct: "GOARCH=386 load", Verdict: Holds, Detail: fmt.Sprintf("the same %d functions are analysed for amd64 and 386: no build-constrained file escapes", len(w.Funcs))})
 		}
 	}
+	// (1b) C01: the compiler as an independent enumerator of indexing sites. Every bounds check
+	// the Go compiler cannot eliminate in the packages of ti (inlining off, so that positions
+	// are the expression's own) must be a site of engine IX or IV, or a stated exemption.
+	if prop == "C01" {
+		o := compilerBoundsCrossCheck(w)
+		obl = append(obl, o)
+	}
 	// (2) seeded variants of this property: does the check fire on them?
 	rs := runSeededFor(prop)
 	fired, silent := 0, 0
@@ -218,4 +228,91 @@ func cmdSelftest(args []string) int {
 		return 1
 	}
 	return 0
+}
+
+func compilerBoundsCrossCheck(w *World) Obligation {
+	o := Obligation{Rule: "COVER", Func: "-", Construct: "compiler bounds checks ⊆ IX ∪ IV sites"}
+	cmd := exec.Command("go", "build", "-gcflags=all=-l -d=ssa/check_bce/debug=1", "./...")
+	cmd.Dir = repoDir()
+	cmd.Env = append(os.Environ(), "GOFLAGS=-mod=mod", "GOWORK=off")
+	out, _ := cmd.CombinedOutput()
+	re := regexp.MustCompile(`(?m)^(?:\./)?([A-Za-z0-9_/.-]+\.go):(\d+):\d+: Found Is(?:Slice)?InBounds`)
+	comp := map[string]bool{}
+	for _, m := range re.FindAllStringSubmatch(string(out), -1) {
+		f := m[1]
+		if strings.HasPrefix(f, "cmd/c2json/") || strings.HasPrefix(f, "cmd/rbs2json/") || strings.HasPrefix(f, "/") {
+			continue
+		}
+		comp[f+":"+m[2]] = true
+	}
+	if len(comp) < 20 {
+		o.Verdict = Undecided
+		o.Detail = fmt.Sprintf("the compiler listing could not be produced (%d sites parsed): %s", len(comp), firstLine(string(out)))
+		return o
+	}
+	have := map[string]bool{}
+	for _, name := range []string{"IX", "IV"} {
+		for _, ob := range engines[name](w, "quick").Obligations {
+			have[ob.Pos] = true
+		}
+	}
+	var missing []string
+	for k := range comp {
+		if have[k] {
+			continue
+		}
+		missing = append(missing, k)
+	}
+	sort.Strings(missing)
+	// stated exemption: positions handed to the less function of sort.Slice
+	var left []string
+	for _, k := range missing {
+		if exemptSortLess(w, k) {
+			continue
+		}
+		left = append(left, k)
+	}
+	if len(left) == 0 {
+		o.Verdict = Holds
+		o.Detail = fmt.Sprintf("all %d bounds checks the compiler keeps in the packages of ti (go build -gcflags=all=-l -d=ssa/check_bce) are sites of IX / IV (%d exempt: less functions of sort.Slice)", len(comp), len(missing)-len(left))
+	} else {
+		o.Verdict = Undecided
+		o.Detail = "indexing sites the compiler cannot prove and neither IX nor IV enumerates: " + strings.Join(left, ", ")
+	}
+	return o
+}
+
+func firstLine(s string) string {
+	if i := strings.IndexByte(s, '\n'); i >= 0 {
+		return s[:i]
+	}
+	return s
+}
+
+func exemptSortLess(w *World, pos string) bool {
+	for _, fn := range w.Funcs {
+		if fn.Parent() == nil {
+			continue
+		}
+		for _, b := range fn.Blocks {
+			for _, ins := range b.Instrs {
+				if w.pos(instrPos(ins)) != pos {
+					continue
+				}
+				var site ivSite
+				switch x := ins.(type) {
+				case *ssa.IndexAddr:
+					site = ivSite{ins: x, base: x.X, what: "index", idx: x.Index}
+				case *ssa.Index:
+					site = ivSite{ins: x, base: x.X, what: "index", idx: x.Index}
+				default:
+					continue
+				}
+				if sortLessIndex(fn, site) {
+					return true
+				}
+			}
+		}
+	}
+	return false
 }
